@@ -608,6 +608,25 @@ def run_target_contract(
 
 def _compute_frontier(ctx: ContractContext, depth: int) -> Iterator[Exec]:
     """
+    Computes the frontier states at a given depth (see _compute_frontier_states).
+
+    The frontier states are computed lazily, while the first test that needs them is running. If that test
+    stops consuming them early (e.g. --width or --early-exit), the partially computed frontier must not stay
+    in the cache, where later tests would take it for the complete one.
+    """
+    visited_before = set(ctx.visited)
+    completed = False
+    try:
+        yield from _compute_frontier_states(ctx, depth)
+        completed = True
+    finally:
+        if not completed:
+            ctx.frontier_states.pop(depth, None)
+            ctx.visited.intersection_update(visited_before)
+
+
+def _compute_frontier_states(ctx: ContractContext, depth: int) -> Iterator[Exec]:
+    """
     Computes the frontier states at a given depth.
 
     This function iterates over the previous frontier states at `depth - 1` and executes an arbitrary function of an arbitrary target contract from each state.
@@ -749,8 +768,6 @@ def get_frontier(ctx: ContractContext, depth: int) -> Iterable[Exec]:
     Otherwise, the generator from _compute_frontier() is returned.
 
     NOTE: This is not thread-safe.
-    Using the --early-exit option may result in incomplete exploration of the current depth if a counterexample is found during the first invariant test.
-    As a result, subsequent tests might only consider a partially computed frontier.
     """
     if (frontier := ctx.frontier_states.get(depth)) is not None:
         return frontier
